@@ -1,6 +1,7 @@
 """C01 - A render output occupies exactly its advertised columns x lines rectangle."""
 from .render_block import *
 from .render_kitty import *
+from .render_iterm2 import *
 
 TRUSTED = ["terminal model of DESIGN appendix A (pyvc/tstr.py VT): the real control-sequence templates are lexed character by character",
            "_get_render_data returns flattened row-major pixel lists of length width*height with components in [0, 255] (PIL)"]
